@@ -98,7 +98,13 @@ func (m *model) view(o map[int]ov, k int) (uint64, bool) {
 	return v, ok
 }
 
+type handle struct {
+	ver int64
+	il  ledger.ILedger[*item]
+}
+
 type runner struct {
+	handles []handle
 	dir    string
 	L      *ledger.FinalityLedger[*item]
 	twin   *ledger.FinalityLedger[*item]
@@ -209,9 +215,11 @@ func (r *runner) apply(op Op) (err error) {
 		}
 	case "cancelsetf":
 		// generated only directly after a pending put without pending tombstone
-		if e, ok := m.cons[k]; ok && e.put && m.consOps[k] == 1 {
+		// shapes with one meaning: cancel the only pending put, or cancel the put of a delete+re-create
+		// (the pending delete then remains)
+		if e, ok := m.cons[k]; ok && e.put && (m.consOps[k] == 1 || (m.consOps[k] == 2 && e.tomb)) {
 			_ = r.L.CancelSetFinality(K)
-			m.consOps[k] = 0
+			m.consOps[k]--
 			if r.twin != nil {
 				_ = r.twin.CancelSetFinality(K)
 			}
@@ -258,9 +266,9 @@ func (r *runner) apply(op Op) (err error) {
 			m.memOps[k]++
 		}
 	case "cancelset":
-		if e, ok := m.mem[k]; ok && e.put && !m.memUnknown[k] && m.memOps[k] == 1 {
+		if e, ok := m.mem[k]; ok && e.put && !m.memUnknown[k] && (m.memOps[k] == 1 || (m.memOps[k] == 2 && e.tomb)) {
 			_ = r.L.CancelSet(K)
-			m.memOps[k] = 0
+			m.memOps[k]--
 			if e.tomb {
 				m.mem[k] = ov{tomb: true}
 			} else {
@@ -353,7 +361,37 @@ func (r *runner) apply(op Op) (err error) {
 		if v < int64(len(m.vers)-1) {
 			r.probes.Hit("hist.past")
 		}
+	case "hopen":
+		// a historical handle that stays in use while the ledger moves on
+		v := op.Ver
+		if v < 1 || v > int64(len(m.vers)-1) {
+			return nil
+		}
+		il, xerr := r.L.ImmutableLedgerAt(v, 0)
+		if xerr != nil {
+			r.fail("ledger.hist", "ImmutableLedgerAt(%d): %v", v, xerr)
+			return nil
+		}
+		r.handles = append(r.handles, handle{v, il})
+		if len(r.handles) > 4 {
+			r.handles = r.handles[1:]
+		}
+	case "hread":
+		if len(r.handles) == 0 {
+			return nil
+		}
+		hd := r.handles[int(op.Val)%len(r.handles)]
+		want, ok := m.vers[hd.ver][k]
+		got, x2 := hd.il.Read(K)
+		r.expectGet(fmt.Sprintf("kept handle of version %d (latest %d).Read", hd.ver, len(m.vers)-1), k, got, x2, want, ok)
+		// Iteration over a kept handle is not judged: IAVL's fast index makes a tree opened at the then-latest
+		// version iterate the live index after further commits (observation S13). The code base never keeps a
+		// historical handle beyond one ABCI call; point reads through a kept handle must still be right.
+		if hd.ver < int64(len(m.vers)-1) {
+			r.probes.Hit("hist.kept-handle-after-commit")
+		}
 	case "reopen", "crash":
+		r.handles = nil
 		if op.Op == "reopen" {
 			_ = r.L.Close()
 			r.probes.Hit("fault.reopen")
@@ -416,7 +454,7 @@ func generate(rng *core.Rand, tier string) *ltrace {
 	for i := 0; i < n; i++ {
 		k := rng.Intn(t.Keys)
 		var op Op
-		switch rng.Pick([]float64{4, 3, 2.5, 0.7, 0.7, 2, 2, 1, 0.4, 0.4, 1.5, 1, 3, 2, 0.5, 0.4}) {
+		switch rng.Pick([]float64{4, 3, 2.5, 0.7, 0.7, 2, 2, 1, 0.4, 0.4, 1.5, 1, 3, 2, 0.5, 0.4, 1, 1.5}) {
 		case 0:
 			val++
 			op = Op{Op: "setf", Key: k, Val: val}
@@ -456,6 +494,13 @@ func generate(rng *core.Rand, tier string) *ltrace {
 			op = Op{Op: "reopen"}
 		case 15:
 			op = Op{Op: "crash"}
+		case 16:
+			op = Op{Op: "hopen", Ver: int64(rng.Range(1, int(ver)+1))}
+			if rng.Chance(0.6) {
+				op.Ver = ver // the then-latest version
+			}
+		case 17:
+			op = Op{Op: "hread", Key: k, Val: uint64(rng.Intn(4))}
 		}
 		t.Ops = append(t.Ops, op)
 	}
